@@ -600,8 +600,8 @@ class G09(autode.wrappers.methods.ExternalMethodOEGH):
                     _, _, fx, fy, fz = force_line.split()
                     force = np.array([float(fx), float(fy), float(fz)])
 
-                    grad = -force / Constants.a0_to_ang
-                    raw_gradient.append(grad)
+                    # NOTE: converted from Ha / a0 to Ha / Å on return
+                    raw_gradient.append(-force)
 
                 except ValueError:
                     logger.warning("Failed to set gradient line")
